@@ -143,15 +143,19 @@ class LfAdapter(Adapter):
         elif act == "CalcRound":
             v1, v2 = args
             lc = lf.make_calculator()
+            last = None
             try:
                 for v in (v1, v2, v1):
                     x = list(lc.get_value_array())
                     for i, op in enumerate(lc.opt_pars):
                         if op.name == "kappa":
                             x[i] = float(op.transform_to_optimiser(SCALE * v))
-                    lc.testoptparvector(x)
+                    last = lc.testoptparvector(x)
             finally:
                 lf.update_from_calculator(lc)
+            # what the calculator returned for the final vector is the value of the function at those settings
+            if last is not None and not ctx.susp and ctx.aln != 0 and not close(last, lf.lnL):
+                ctx.calc_anom = "calculator-value-differs-from-function-at-the-same-settings"
         else:
             raise ValueError(act)
         return None
@@ -171,6 +175,9 @@ class LfAdapter(Adapter):
             v = float(s.get_default_value()) / SCALE
             val[e] = int(round(v)) if abs(v - round(v)) < 1e-9 else v
         state = {"blk": blk, "const": const, "val": val, "mp": ctx.mp, "aln": ctx.aln, "susp": ctx.susp, "lenA": ctx.lenA}
+        if getattr(ctx, "calc_anom", None):
+            anomalies.append(ctx.calc_anom)
+            ctx.calc_anom = None
         if abs(lf.defn_for["length"].assignments[("a",)].get_default_value() - LEN_A[ctx.lenA]) > 1e-12 if ("a",) in lf.defn_for["length"].assignments else False:
             anomalies.append("length-setting-differs")
         if not ctx.susp and ctx.aln != 0:
